@@ -173,6 +173,14 @@ def export_forest(forest):
     return {"root": root, "nodes": nodes}
 
 
+def flen(forest):
+    """len(forest); more trees than sys.maxsize cannot be reported by len() (OverflowError is Python's, not parglare's): Forest.solutions then"""
+    try:
+        return len(forest)
+    except OverflowError:
+        return forest.solutions
+
+
 def capped_int(n, cap=1000000):
     return min(int(n), cap)
 
